@@ -21,6 +21,15 @@ Mirrors
 * `libs/log/impl/src/log/impl/tree_formatter.cpp`      : `treeFormatter` = left fold over node … root, empty names skipped
 * `libs/log/src/log/format/prefix.cpp`, `inserter.cpp`, `default_level.cpp`, `level_to_string_impl.cpp`
 * `libs/log/src/log/level_stream.cpp`                  : `streamLog` = `(chain additional own).getD id` applied to the message
+* `libs/log/src/log/location.cpp`                      : `locOfName`, `locPush` (`operator/=` and `operator/`), `locString` (the fold as it is written: entries in reverse order, each followed by `::`)
+* `libs/log/src/log/level_from_string.cpp`, `level_to_string.cpp`, `level_output.cpp`, `level_input.cpp`
+  (+ `enum/from_string_impl.hpp` = `index_of_array(names)`, `enum/input.hpp`)          : `levelFromString`, `levelToString`, `levelInput`
+* `libs/log/src/log/format/time_stamp.cpp`             : `timeStamp` (the clock text is a parameter)
+* `libs/log/src/log/default_stream.cpp`, `default_level_streams.cpp` : `defaultStream`, `defaultLevelStreams`
+* `libs/log/include/fcppt/log/detail/level_if_enabled.hpp` : `logMacro` (the message expression is evaluated iff `enabled`)
+* `libs/log/include/fcppt/log/detail/temporary_output.hpp` : `outParts` (`out << a << b …` = concatenation)
+* `libs/log/src/log/level_stream.cpp`                  : `LevelStream` with `sink` (redirect), `get`, `formatter`, `log`
+* `libs/log/src/log/parameters.cpp`, `parameters_no_function.cpp` : `Params`
 
 A reference to a tree node (`fcppt::reference<context_tree const>`, stable because children live in a
 `std::list` and are never erased) is modelled by the node's location (list of names from the root);
@@ -187,5 +196,92 @@ def objEnabled (t : Tree) (o : Obj) (l : Nat) : M Bool := (objLevel t o).map (en
 /-- `object::log`: `if enabled(l) then level_sink(l).log(msg, formatter_)`; result = what is written to sink `l` -/
 def objLog (t : Tree) (streams : Nat → OptFn) (o : Obj) (l : Nat) (msg : String) : M (Option String) :=
   (objEnabled t o l).map fun e => if e then some (streamLog (streams l) o.fmt msg) else none
+
+/-! ## the rest of the public API of libs/log -/
+
+/-- `location::location(name)` -/
+def locOfName (n : String) : Loc := [n]
+/-- `location::operator/=` and `operator/(location, name)`: `entries_.push_back` -/
+def locPush (l : Loc) (n : String) : Loc := l ++ [n]
+/-- `location::string`: `fcppt::algorithm::fold(*this, "", λ(_state, _elem). _state + "::" + _elem)` — but
+    `fold` calls its function as `f(element, state)`, so the parameter the source calls `_state` receives the entry
+    and `_elem` the accumulated text: every entry is put IN FRONT, followed by `::` (`[root, child]` ↦ `child::root::`,
+    not the `::root::child` of the class documentation; see notes/C19.md, DEFECT CANDIDATE). Modelled as the code is. -/
+def locString (l : Loc) : String := l.foldl (fun st e => e ++ "::" ++ st) ""
+
+/-- `enum_::names<level>()`: `to_string` of every enumerator, in order -/
+def levelNames : List String := (List.range levelCount).map levelName
+
+/-- `level_to_string` / `operator<<`: the switch over the six enumerators, `FCPPT_ASSERT_UNREACHABLE` behind it -/
+def levelToString (l : Nat) : M String :=
+  if l < levelCount then .ok (levelName l) else .error (.exception (.other "unreachable"))
+
+/-- `level_from_string` = `from_string_impl::get` = `index_of_array(names, s)`: first index whose name equals `s` -/
+def levelFromString (s : String) : Level :=
+  let i := levelNames.findIdx (· == s)
+  if i < levelNames.length then some i else none
+
+/-- blanks `operator>>(istream&, std::string&)` skips / stops at (the classic locale's `isspace`) -/
+def isSpace (c : Char) : Bool := c == ' ' || c == '\n' || c == '\t' || c == '\r' || c.toNat == 11 || c.toNat == 12
+
+/-- `operator>>(istream &, level &)` = `enum_::input`: `io::extract<std::string>` (skip blanks, read up to the next
+    blank; nothing read ⇒ failure), then `from_string`; failure sets the failbit and leaves the variable alone.
+    Result: new value of the variable, failbit, unread rest of the stream. -/
+def levelInput (old : Nat) (input : List Char) : Nat × Bool × List Char :=
+  let rest := input.dropWhile isSpace
+  let word := rest.takeWhile (fun c => !isSpace c)
+  let after := rest.dropWhile (fun c => !isSpace c)
+  if word.isEmpty then (old, true, after)
+  else match levelFromString (String.ofList word) with
+    | some l => (l, false, after)
+    | none => (old, true, after)
+
+/-- `format::time_stamp`: `output_tm(localtime(std_time())) + ": " + text`; the clock text is the parameter `now` -/
+def timeStamp (now : String) : Fn := fun t => now ++ ": " ++ t
+
+/-- `default_stream`: verbose … warning ↦ `clog` (false), error and fatal ↦ `cerr` (true) -/
+def defaultStream (l : Nat) : Bool := decide (l ≥ 4)
+
+/-- `default_level_streams`: for every level the default stream and `default_level` as formatter -/
+def defaultLevelStreams (l : Nat) : Bool × OptFn := (defaultStream l, some (defaultLevel l))
+
+/-- `out << p₁ << p₂ …` (`temporary_output`): the texts are appended to one `ostringstream` -/
+def outParts (parts : List String) : String := parts.foldl (· ++ ·) ""
+
+/-- `temporary_output::operator=(temporary_output &&)`: the target's text is replaced by the source's -/
+def outAssign (_target source : List String) : String := outParts source
+
+/-- `fcppt::log::level_stream`: the sink it writes to (an index into the harness' sinks) and its formatter -/
+structure LevelStream where
+  dest : Nat
+  fmt : OptFn
+
+/-- `level_stream::sink(stream)`: redirect -/
+def LevelStream.sink (s : LevelStream) (d : Nat) : LevelStream := { s with dest := d }
+
+/-- `level_stream::log`: which sink receives which text -/
+def LevelStream.log (s : LevelStream) (additional : OptFn) (msg : String) : Nat × String :=
+  (s.dest, streamLog s.fmt additional msg)
+
+/-- `fcppt::log::parameters` -/
+structure Params where
+  name : String
+  fmt : OptFn
+
+/-- `parameters_no_function` -/
+def paramsNoFunction (name : String) : Params := ⟨name, none⟩
+
+/-- `FCPPT_LOG_<LEVEL>(obj, msg)` = `if (obj.enabled(l)) obj.log(l, msg)`: the message expression is evaluated
+    (count of evaluations in the second component) only inside the `if`; `log` tests `enabled` again -/
+def logMacro (t : Tree) (streams : Nat → OptFn) (o : Obj) (l : Nat) (msg : String) : M (Option String × Nat) :=
+  match objEnabled t o l with
+  | .error f => .error f
+  | .ok false => .ok (none, 0)
+  | .ok true => (objLog t streams o l msg).map (fun r => (r, 1))
+
+/-- `object::level_sink(l).log(msg, additional)`: bypasses `enabled`, the object's formatter is not applied
+    unless passed as `additional` -/
+def sinkLog (streams : Nat → OptFn) (l : Nat) (additional : OptFn) (msg : String) : String :=
+  streamLog (streams l) additional msg
 
 end Fcppt.C19
